@@ -100,6 +100,18 @@ CLAIMED = {
    note="Trusted: Lean kernel; translate.py's regex extraction; the Python SPEC table as the reading of the function specification; `any` admits expression references (that is what is declared).",
    design="DESIGN.md §7 C06",
    technique="Lean 4 theorems (generic validator + class-level lifting + regenerated signature tables) + exhaustive class-level decision table against the code"),
+ "C05": dict(
+   text="Machine-checked theorems (Lean 4) about what a model can carry of totality — recursion depth and loop bounds: lexer and parser terminate on "
+        "every input within 8*|tokens|+8 recursion frames; number tokens fit i32 with room for negation; the slice loops never overflow, index "
+        "out of bounds or run away for any start/stop/step; no builtin reaches unreachable!() after validation and the validator cannot panic; "
+        "search terminates with a JSON result on every JSON document for every expression whose expression references stay in expref-typed "
+        "parameters; fuel monotonicity. Negative result, also proved: a grammatical expression in which an expression reference reaches the "
+        "data diverges for every fuel (known finding F13). The streams run the real code under catch_unwind in child processes and attribute "
+        "aborts/hangs to cases: numeric extremes, malformed quoted forms, Unicode soup, huge/deep documents, nesting probes 10..100000.",
+   note="PARTIAL BY NATURE: stack bytes and wall-clock time are runtime quantities no theorem about the model exhibits; deep nesting (F12) and the "
+        "self-applying expression reference (F13) are known findings, classified by nesting depth > 1000 resp. by the model's divergence.",
+   design="DESIGN.md §7 C05",
+   technique="Lean 4 theorems (fuel sufficiency, termination, no-fault slices, divergence witness) + panic/abort/hang harness streams"),
 }
 
 NOT_YET = "check not built yet in this session (work in progress; see DESIGN.md §10 for the order of work)"
